@@ -1,24 +1,252 @@
-"""Importable workload targets (instrumented: they are pre-emptible and can receive asynchronous exceptions)."""
-import time
-from simos.sync import cur_sim
+"""Importable workload targets and value classes (instrumented: pre-emptible, can receive asynchronous exceptions).
+
+Every target writes to the omniscient ground-truth log (sim.tlog) so that oracles know what really happened
+in the child: which input it received, whether the target returned or raised, where a finally block ran.
+"""
+from simos.sync import cur_sim, get_ident
+from simos.shims import TimeFacade, OsFacade
+
+time = TimeFacade()
+_os = OsFacade()
 
 
-def square(x):
-    return x * x
+def truth(kind, **f):
+    cur_sim().tlog(kind, **f)
 
 
-def add(a, b=0):
-    return a + b
+# ------------------------------------------------------------------------------------------ values
+class Custom:
+    def __init__(self, a, b=None):
+        self.a = a
+        self.b = b
+
+    def __eq__(self, o):
+        return type(o) is Custom and (o.a, o.b) == (self.a, self.b)
+
+    def __repr__(self):
+        return f'Custom({self.a!r}, {self.b!r})'
 
 
-def sleeper(d=1.0):
-    time.sleep(d)
-    return 'slept'
+class NeedsArgsError(Exception):
+    """an exception class whose constructor requires arguments: pickles as (cls, (msg,)) and cannot be rebuilt"""
+
+    def __init__(self, a, b):
+        super().__init__(f'{a}-{b}')
+        self.a = a
+        self.b = b
 
 
-def loop_sleep(n=1000, d=0.01):
+class MyError(Exception):
+    pass
+
+
+class MyBaseException(BaseException):
+    pass
+
+
+def _rebuild_origin_only(origin_pid, payload):
+    if _os.getpid() != origin_pid:
+        raise AttributeError("Can't get attribute 'MainScriptClass' on <module '__main__' (built-in)>")
+    o = OriginOnly.__new__(OriginOnly)
+    o.origin = origin_pid
+    o.payload = payload
+    return o
+
+
+class OriginOnly:
+    """stand-in for an instance of a class defined in the main script of the process that created it: it can be
+    pickled anywhere but rebuilt only in its origin process"""
+
+    def __init__(self, payload=None):
+        self.origin = _os.getpid()
+        self.payload = payload
+
+    def __reduce__(self):
+        return _rebuild_origin_only, (self.origin, self.payload)
+
+    def __eq__(self, o):
+        return type(o) is OriginOnly and o.payload == self.payload
+
+
+class OriginOnlyError(Exception):
+    def __init__(self, *a):
+        super().__init__(*a)
+        self.origin = _os.getpid()
+
+    def __reduce__(self):
+        return _rebuild_origin_only_error, (self.origin, self.args)
+
+
+def _rebuild_origin_only_error(origin_pid, args):
+    if _os.getpid() != origin_pid:
+        raise AttributeError("Can't get attribute 'MainScriptError' on <module '__main__' (built-in)>")
+    return OriginOnlyError(*args)
+
+
+def make_value(spec):
+    """JSON value spec -> python value"""
+    if isinstance(spec, dict) and '$' in spec:
+        k = spec['$']
+        if k == 'bytes':
+            n = spec['n']
+            return bytes((i * 7 + spec.get('salt', 0)) & 0xFF for i in range(min(n, 256))) * (n // 256) + bytes(n % 256)
+        if k == 'custom':
+            return Custom(make_value(spec.get('a')), make_value(spec.get('b')))
+        if k == 'tuple':
+            return tuple(make_value(x) for x in spec['items'])
+        if k == 'set':
+            return set(make_value(x) for x in spec['items'])
+        if k == 'origin-only':
+            return OriginOnly(spec.get('payload'))
+        if k == 'dict':
+            return {make_value(a): make_value(b) for a, b in spec['items']}
+        raise ValueError(k)
+    if isinstance(spec, list):
+        return [make_value(x) for x in spec]
+    if isinstance(spec, dict):
+        return {k: make_value(v) for k, v in spec.items()}
+    return spec
+
+
+EXC = {'ValueError': ValueError, 'KeyError': KeyError, 'MyError': MyError, 'NeedsArgsError': NeedsArgsError,
+       'OriginOnlyError': OriginOnlyError, 'KeyboardInterrupt': KeyboardInterrupt, 'SystemExit': SystemExit,
+       'MyBaseException': MyBaseException, 'ZeroDivisionError': ZeroDivisionError, 'RuntimeError': RuntimeError}
+
+
+def make_exc(name, args):
+    cls = EXC[name]
+    return cls(*[make_value(a) for a in args])
+
+
+# ------------------------------------------------------------------------------------------ one-shot targets
+def t_return(v=None):
+    truth('target-enter', fn='t_return')
+    val = make_value(v)
+    truth('target-leave', how='return')
+    return val
+
+
+def t_raise(name='ValueError', args=()):
+    truth('target-enter', fn='t_raise')
+    e = make_exc(name, args)
+    truth('target-leave', how='raise', exc=name)
+    raise e
+
+
+def t_loop(n=200, d=0.01, v='loop-done'):
+    truth('target-enter', fn='t_loop')
     i = 0
     while i < n:
         time.sleep(d)
         i += 1
-    return i
+    truth('target-leave', how='return')
+    return v
+
+
+def t_loop_finally(marker='M', n=200, d=0.01, v='loop-done'):
+    truth('target-enter', fn='t_loop_finally')
+    try:
+        i = 0
+        while i < n:
+            time.sleep(d)
+            i += 1
+        x = i * 2
+        truth('target-leave', how='return')
+        return v
+    finally:
+        truth('finally', marker=marker, ident=get_ident())
+
+
+def t_swallow(d=0.01):
+    truth('target-enter', fn='t_swallow')
+    while True:
+        try:
+            while True:
+                time.sleep(d)
+        except Exception:
+            truth('swallowed')
+
+
+def t_sleep(d=1000.0, v='slept'):
+    truth('target-enter', fn='t_sleep')
+    time.sleep(d)
+    truth('target-leave', how='return')
+    return v
+
+
+def t_pyloop(n=60, v='pyloop-done'):
+    """pure python computation (no system call) so that the asynchronous exception lands inside the target"""
+    truth('target-enter', fn='t_pyloop')
+    try:
+        acc = 0
+        for i in range(n):
+            acc += i
+            acc ^= 3
+        truth('target-leave', how='return')
+        return v
+    finally:
+        truth('finally', marker='pyloop', ident=get_ident())
+
+
+# ------------------------------------------------------------------------------------------ persistent targets
+def p_square(x, *rest, **kw):
+    truth('p-enter', x=x)
+    r = x * x
+    truth('p-leave', x=x)
+    return r
+
+
+def p_echo(*args, **kwargs):
+    truth('p-enter', x=args[0] if args else None)
+    r = [list(args), dict(kwargs)]
+    truth('p-leave', x=args[0] if args else None)
+    return r
+
+
+def p_mutating(lst, d=None, tag=None):
+    """mutates its arguments: later calls must still see pristine defaults"""
+    truth('p-enter', x=tag)
+    seen = [list(lst), dict(d or {}), tag]
+    lst.append('dirty')
+    if d is not None:
+        d['dirty'] = True
+    truth('p-leave', x=tag)
+    return seen
+
+
+def p_poison(x, poison=(), big=0):
+    truth('p-enter', x=x)
+    if x in poison or (isinstance(x, list) and x and x[0] in poison):
+        truth('p-leave', x=x, how='raise')
+        raise MyError(f'poison {x}')
+    truth('p-leave', x=x)
+    if big:
+        return [x, 'r' * big]
+    return ['r', x]
+
+
+def p_slow(x, d=0.05):
+    truth('p-enter', x=x)
+    time.sleep(d)
+    truth('p-leave', x=x)
+    return ['r', x]
+
+
+def p_falsy(x):
+    truth('p-enter', x=x)
+    truth('p-leave', x=x)
+    return [None, 0, '', [], False][x % 5]
+
+
+def p_swallow(x, d=0.01):
+    truth('p-enter', x=x)
+    while True:
+        try:
+            while True:
+                time.sleep(d)
+        except Exception:
+            truth('swallowed')
+
+
+TARGETS = {f.__name__: f for f in (t_return, t_raise, t_loop, t_loop_finally, t_swallow, t_sleep, t_pyloop, p_square,
+                                   p_echo, p_mutating, p_poison, p_slow, p_falsy, p_swallow)}
